@@ -93,7 +93,16 @@ fn targeted(rng: &mut Rng, b: &mut Vec<u8>) -> &'static str {
 fn gen_line(rng: &mut Rng, streams: &[(String, u64)], storages: &[String], open: &mut Vec<(u32, String)>, step: u64) -> String {
     // a stream that a handle is bound to is not touched through another handle, an overwrite or a
     // removal (what a handle means after that is C07's subject, not this property's)
-    let held = |p: &str, open: &Vec<(u32, String)>| open.iter().any(|(_, hp)| hp == p || hp.starts_with(&format!("{}/", p)));
+    let keys = |p: &str| -> Vec<crate::api::Key> { p.split('/').filter(|c| !c.is_empty()).map(crate::api::key_of).collect() };
+    let held = |p: &str, open: &Vec<(u32, String)>| {
+        // names are case-insensitive: compare by CFB key, component-wise; `p` holds a handle's stream
+        // if it is that stream or one of the storages above it
+        let kp = keys(p);
+        open.iter().any(|(_, hp)| {
+            let kh = keys(hp);
+            kh.len() >= kp.len() && kh[..kp.len()] == kp[..]
+        })
+    };
     let names = ["n1", "n2", "a", "Zeta", "x10"];
     let parent = if !storages.is_empty() && rng.chance(1, 3) { rng.pick(storages).clone() } else { String::new() };
     let w = rng.below(100);
